@@ -35,6 +35,8 @@ def make_db(name):
             MacroSpec('mm', [LatexArgumentSpec('[', parsing_state_delta=ParsingStateDeltaEnterMathMode()),
                              LatexArgumentSpec('{', parsing_state_delta=ParsingStateDeltaEnterMathMode())]),
             MacroSpec('m2', '{{'),
+            MacroSpec(',', ['r()']),          # required delimited argument after a NON-alphabetic macro name:
+                                              # whitespace in front of the argument is not swallowed by the macro token
         ], environments=[
             EnvironmentSpec('ea', '[{'),
             EnvironmentSpec('eb', ''),
@@ -82,7 +84,7 @@ SYM_DEFAULT_EXTRA = ['\\textbf', '\\frac', '\\item', '\\\\', '\\verb', '|', '\\b
                      '\\begin{lstlisting}', '\\end{lstlisting}', '\\section', '\\newcommand', '\\includegraphics',
                      '\\\'', '\\"', '\\begin{tabular}', '\\end{tabular}', '\\begin{align*}', '\\end{align*}',
                      '\\left', '\\right', '(', ')', '\t', '\\documentclass', '\\ ', '\\hspace']
-SYM_CUSTOM_EXTRA = ['\\ma', '\\mb', '\\mc', '\\md', '\\mv', '\\mw', '\\mz', '\\mt', '\\mm', '\\m2', '\\mq', '\\\\',
+SYM_CUSTOM_EXTRA = ['\\,', '\\ma', '\\mb', '\\mc', '\\md', '\\mv', '\\mw', '\\mz', '\\mt', '\\mm', '\\m2', '\\mq', '\\\\',
                     '\\begin{ea}', '\\end{ea}', '\\begin{eb}', '\\end{eb}', '\\begin{em}', '\\end{em}',
                     '\\begin{e*}', '\\end{e*}', '!!', '@', '--', '---', '+', '(', ')', '<', '>', '|', '\n\n', '$$',
                     '%c\n', 'b', '!', '\\unknown', '\\begin{zz}', '\\end{zz}']
@@ -185,9 +187,9 @@ def gen_item(rnd, ctx, depth, math):
     else:
         if k < 0.80:
             m = rnd.choice(['\\ma', '\\mb', '\\mc', '\\md', '\\mv', '\\mw', '\\mz', '\\mt', '\\mm', '\\m2', '\\mq',
-                            '\\\\', '\\unk'])
+                            '\\\\', '\\unk', '\\,'])
             sig = {'\\ma': '*[{', '\\mb': '{[', '\\mc': '*+{', '\\md': '(<', '\\mv': 'v', '\\mw': 'V[', '\\mt': '{',
-                   '\\mm': '[{', '\\m2': '{{', '\\mq': '[', '\\\\': '*['}.get(m, '')
+                   '\\mm': '[{', '\\m2': '{{', '\\mq': '[', '\\\\': '*[', '\\,': '('}.get(m, '')
             out = m
             if not sig and m[-1].isalpha():
                 out += rnd.choice([' ', '{}', '\n'])
@@ -200,7 +202,7 @@ def gen_item(rnd, ctx, depth, math):
                     if rnd.random() < 0.5:
                         out += (_maybe_ws(rnd) if m != '\\\\' else '') + '[' + gen_doc(rnd, ctx, depth + 1, math).replace(']', '') + ']'
                 elif a == '(':
-                    out += '(' + rnd.choice(['a', 'a b', '']) + ')'
+                    out += (_maybe_ws(rnd) if m == '\\,' else '') + '(' + rnd.choice(['a', 'a b', '']) + ')'
                 elif a == '<':
                     out += rnd.choice(['<a>', '', '<>'])
                 elif a == 'v':
